@@ -117,6 +117,9 @@ func corrC03(r *Run) {
 	ts := pduTypes()
 	nStreams := r.N(60, 1500)
 	caseBudget := r.N(260, 4000)
+	vol := &pduVolume{}
+	defer vol.diff(r)
+	volN := 0
 	emit := func(data []byte, sched []int, obs []readObs, what string) {
 		if caseBudget <= 0 {
 			return
@@ -141,6 +144,9 @@ func corrC03(r *Run) {
 			sched := []int{p, total - p}
 			obs := checkStream(r, items, data, sched, "split")
 			r.Count(fmt.Sprintf("split/%d/%d", s, p), true, "single split point")
+			if volN++; volN%3 == 0 {
+				vol.readmany(data, sched, obs)
+			}
 			if p%7 == s%7 && s < 12 {
 				emit(data, sched, obs, "split")
 			}
@@ -165,6 +171,7 @@ func corrC03(r *Run) {
 			sched := randomSched(r.Rng, total)
 			obs := checkStream(r, items, data, sched, "random")
 			r.Count(fmt.Sprintf("random/%d/%d", s, j), len(sched) > len(items), "random composition")
+			vol.readmany(data, sched, obs)
 			if j < 2 {
 				emit(data, sched, obs, "random")
 			}
@@ -183,6 +190,7 @@ func corrC03(r *Run) {
 				obs := readAll(data[:k], sched, len(items)+2)
 				last := obs[len(obs)-1]
 				r.Count(fmt.Sprintf("trunc/%d/%d", s, k), !bounds[k], "truncation point")
+				vol.readmany(data[:k], sched, obs)
 				want := "truncated"
 				if bounds[k] {
 					want = "eof"
